@@ -303,3 +303,143 @@ class FindAllLinks(Contract):
 
 
 CONTRACTS += [FindAllLinks()]
+
+
+# ============================================================================= create_linked_view: separator check, link map, order of the calls
+
+
+class SItem(Sym):
+    """a state point key or value; for strings, whether it contains the path separator is symbolic"""
+
+    def __init__(self, name, is_str):
+        self.name, self.is_str = name, is_str
+        self.hassep = z3.Bool(f"{name}_contains_sep")
+
+    def sym_isinstance(self, ex, cls):
+        return (cls is str and self.is_str) or cls is object
+
+    def sym_contains(self, ex, x):
+        if x == os.sep and self.is_str:
+            return SBool(self.hassep)
+        raise Unsupported("`in` on this item")
+
+    def sym_truth(self, ex):
+        return True          # only items that contain the separator are ever tested for truth: non-empty strings
+
+    def sym_hashable(self):
+        return True
+
+    def __repr__(self):
+        return self.name
+
+
+class SJobV(Sym):
+    def __init__(self, name):
+        self.name = name
+        self.path = f"<{name}.path>"
+
+    def sym_getattr(self, ex, n):
+        if n == "statepoint":
+            return NativeStub(lambda: ("statepoint-of", self), "job.statepoint")
+        if n == "path":
+            return self.path
+        raise Unsupported(f"job.{n}")
+
+    def __repr__(self):
+        return self.name
+
+
+class CreateLinkedView(Contract):
+    """bound stated: 0, 1 or 2 selected jobs with up to two (key, value) leaves each -- the function treats jobs and leaves uniformly
+    (comprehensions and one loop); which of the keys / string values contain the path separator is symbolic"""
+    target = f"{LV}.create_linked_view"
+    properties = ("C17",)
+
+    class ctx_class(Ctx):
+        def make_set(self, ex, items):
+            return OpaqueStr()          # only ever formatted into the error message
+
+        def str_join(self, interp, sep, parts):
+            return OpaqueStr()          # the error message
+
+    def cases(self):
+        return [{"njobs": n, "ids": ids, "prefix": pf} for n in (0, 1, 2) for ids in (False, True) for pf in (None, "custom")]
+
+    def make_ctx(self, case):
+        ctx = super().make_ctx(case)
+        g = ctx.ghost
+        g["ev"] = []
+        jobs = [SJobV(f"job{i}") for i in range(case["njobs"])]
+        g["jobs"] = jobs
+        leaves = {}
+        for i, j in enumerate(jobs):
+            leaves[j.name] = [(SItem(f"key{i}a", True), SItem(f"val{i}a", True)), (SItem(f"key{i}b", True), SItem(f"val{i}b", False))]
+        g["leaves"] = leaves
+
+        def flatten(interp, b):
+            d = b["d"]
+            if isinstance(d, tuple) and d[0] == "statepoint-of":
+                return list(leaves[d[1].name])
+            raise Unsupported("_nested_dicts_to_dotted_keys argument")
+        ctx.callee_contracts["signac._utility._nested_dicts_to_dotted_keys"] = flatten
+        pf = NativeStub(lambda job: f"<path-of-{job.name}>", "path function")
+
+        def mpf(interp, b):
+            g["ev"].append(("make-path-function", list(b["jobs"]), b["path"]))
+            return pf
+        ctx.callee_contracts["signac.import_export._make_path_function"] = mpf
+        ctx.callee_contracts["signac.import_export._check_directory_structure_validity"] = lambda interp, b: g["ev"].append(("validity-check", list(b["paths"])))
+        ctx.callee_contracts[f"{LV}._update_view"] = lambda interp, b: g["ev"].append(("update-view", b["prefix"], dict(b["links"])))
+        ctx.externals[os.path.join] = lambda interp, *a: "/".join(a)
+        return ctx
+
+    def setup(self, interp, case):
+        g = interp.ctx.ghost
+        jobs = g["jobs"]
+
+        class SProjV(Sym):
+            def sym_iter(self, ex):
+                g["ev"].append(("iterate-project",))
+                return list(jobs)
+
+            def sym_getattr(self, ex, n):
+                if n == "open_job":
+                    def oj(*a, **k):
+                        g["ev"].append(("open_job", a, k))
+                        return jobs[int(k["id"][-1])]
+                    return NativeStub(oj, "project.open_job")
+                if n == "find_jobs":
+                    return NativeStub(lambda *a, **k: (g["ev"].append(("find_jobs",)), [SJobV("unselected")])[1], "project.find_jobs")
+                raise Unsupported(f"project.{n}")
+        ids = [f"id{i}" for i in range(case["njobs"])] if case["ids"] else None
+        path = ("path-spec",)
+        kw = {"job_ids": ids, "path": path}
+        if case["prefix"]:
+            kw["prefix"] = "PREFIX"
+        return [SProjV()], kw, {"path": path}
+
+    def post(self, interp, case, pre, outcome):
+        ex, g = interp.ex, interp.ctx.ghost
+        jobs, ev = g["jobs"], g["ev"]
+        items = [it for j in jobs for kv in g["leaves"][j.name] for it in kv]
+        bad = z3.Or(*[it.hassep for it in items if it.is_str]) if items else z3.BoolVal(False)
+        calls = [e for e in ev if e[0] in ("make-path-function", "validity-check", "update-view")]
+        if outcome[0] == "raise":
+            ex.oblige(self.oname("raises:RuntimeError_iff_a_(nested)_key_or_string_value_contains_the_path_separator,_before_anything_is_built"),
+                      z3.And(z3.BoolVal(isinstance(outcome[1], RuntimeError) and not calls), bad), note=repr(outcome[1])[:200])
+            return
+        ex.oblige(self.oname("ensures:accepted_only_if_no_key_and_no_string_value_contains_the_path_separator"), z3.Not(bad))
+        want_links = {f"<path-of-{j.name}>/job": j.path for j in jobs}
+        r = outcome[1]
+        ex.oblige(self.oname("ensures:returns_one_link_per_selected_job:_<path_of_the_job>/job_->_the_job_directory_(an_empty_selection_links_nothing)"),
+                  z3.BoolVal(isinstance(r, dict) and r == want_links), note=repr(r)[:300])
+        prefix = "PREFIX" if case["prefix"] else "view"
+        ok = len(calls) == 3 and calls[0][0] == "make-path-function" and len(calls[0][1]) == len(jobs) and all(a is b for a, b in zip(calls[0][1], jobs)) and calls[0][2] is pre["path"] \
+            and calls[1] == ("validity-check", list(want_links)) and calls[2] == ("update-view", prefix, want_links)
+        ex.oblige(self.oname("ensures:the_path_function_is_made_for_the_selected_jobs,_the_link_paths_are_checked_for_leaf/node_conflicts,_then_the_view_is_updated_under_the_prefix"),
+                  z3.BoolVal(bool(ok)), note=repr(calls)[:400])
+        sel_ok = (("iterate-project",) in ev) != case["ids"] and len([e for e in ev if e[0] == "open_job"]) == (case["njobs"] if case["ids"] else 0) and ("find_jobs",) not in ev
+        ex.oblige(self.oname("ensures:the_selection_is_the_given_ids_or_the_whole_project,_never_anything_else"), z3.BoolVal(bool(sel_ok)), note=repr([e[0] for e in ev]))
+
+
+CONTRACTS += [CreateLinkedView()]
